@@ -244,3 +244,8 @@ class _Graph:
 
 
 frame_transform_graph = _Graph()
+
+
+def frame_of(name):
+    """(model helper) the frame object with this name"""
+    return _Frame(name)
